@@ -399,6 +399,11 @@ def lexer_check(run, module, oracle, n_quick, n_thorough, variants=("debug", "re
     ins += gen.context_exhaustive(3 if run.tier == "thorough" else 2, rng.fork("ctx"))
     if run.tier != "thorough":
         ins += gen.context_exhaustive(3, rng.fork("ctx3"), limit=n)
+        ins += gen.small_context_exhaustive(4, rng.fork("sctx4"), limit=8 * n)
+        ins += gen.small_context_exhaustive(5, rng.fork("sctx5"), limit=4 * n)
+    else:
+        ins += gen.small_context_exhaustive(4)
+        ins += gen.small_context_exhaustive(5, rng.fork("sctx5"), limit=400000)
     if extra_inputs:
         x = extra_inputs(rng, run)
         ins += x
@@ -594,6 +599,47 @@ def check_C16(run):
     run.assumptions += ["whole-lexer case independence is tested (random/extreme variants of every input, all or sampled 2^n variants of keyword templates); proved: the classification helpers"]
 
 
+def check_C17(run):
+    BOMC = "\ufeff"
+    state = {}
+
+    def extra(rng, run):
+        return []
+
+    res = lexer_check(run, "C17", lambda cx: [], 2500, 60000, variants=("debug", "release"), need_ok=False,
+                      premise=({"loopdet": "false"}, "the loop detector fired in the model run (premise of C17_bom_transparent)"))
+    T = impl.tables("debug")
+    base_cases = [c for c in res["release"] if c.src is not None and not c.src.startswith(BOMC)]
+    plain = [c.src for c in base_cases]
+    marked = [BOMC + s_ for s_ in plain]
+    try:
+        exe = coqbuild.build_model()
+    except CoqFailure:
+        exe = None
+    mres = correspond(run, exe, marked, ("debug", "release"), T, None, stream="marked")
+    for variant in ("release", "debug"):
+        pl = {c.src: c for c in res[variant] if c.src is not None}
+        n = 0
+        for s_, cm in zip(plain, mres[variant]):
+            cp = pl.get(s_)
+            if cp is None or cp.outcome != "ok":
+                continue
+            f = O.c17_pair(cp, cm)
+            if f:
+                n += 1
+                if n <= 3:
+                    def still(s2, _v=variant):
+                        if s2.startswith(BOMC):
+                            return False
+                        a, b = impl.run_lex(_v, [s2, BOMC + s2], mode="lexa", jobs=1)
+                        return a.outcome == "ok" and bool(O.c17_pair(a, b))
+                    run.violation("oracle", f"[{variant}] a leading byte-order mark changes the result: {f[0]}", src=shrink_input(s_, still))
+        run.count(f"bom-pairs:{variant}", len(plain))
+    settle_break(run)
+    run.assumptions += ["C17_bom_transparent assumes the plain run returns within the iteration budget with the loop detector silent (C01)",
+                        "the model keeps offsets relative to the text after the mark; agreement with the implementation's absolute arithmetic is what the marked-input correspondence stream checks"]
+
+
 def check_C18(run):
     res = lexer_check(run, "C18", lambda cx: [], 3000, 80000, variants=("release", "release-sep", "debug-sep"), need_ok=False)
     T = impl.tables("debug")
@@ -618,4 +664,4 @@ def check_C18(run):
     run.assumptions += ["equality of the two feature builds up to MacroSep tokens is tested on every input (both builds of the implementation, both configurations of the model); proved: the guard predicate"]
 
 
-CHECKS = {"C04": check_C04, "C06": check_C06, "C10": check_C10, "C16": check_C16, "C18": check_C18, "C09": check_C09, "C05": check_C05, "C03": check_C03, "C02": check_C02, "C19": check_C19}
+CHECKS = {"C04": check_C04, "C06": check_C06, "C10": check_C10, "C16": check_C16, "C17": check_C17, "C18": check_C18, "C09": check_C09, "C05": check_C05, "C03": check_C03, "C02": check_C02, "C19": check_C19}
